@@ -122,6 +122,10 @@ struct Ctx {
   bool thorough() const { return tier == "thorough"; }
 
   // returns false if this case must be skipped (belongs to another shard / before resume point)
+  long long gindex = 0;
+  // cheap index-based sharding, to be called before a case is materialised
+  bool take() { return nshards <= 1 || (gindex++ % nshards) == shard; }
+  std::string hashfile;      // distinct non-trivial hashes are dumped here and united by the parent
   bool partitioned = false;  // cases are assigned to shards by hash => per-shard distinct sets are disjoint
   // hash-sharded variant: the same case always lands in the same shard
   bool begin_h(const std::string &caseid, const std::string &text) {
@@ -138,7 +142,11 @@ struct Ctx {
   }
   void cls(const std::string &c) { classes[c]++; }
   void nontrivial(const std::string &key) { distinct.insert(fnv(key)); }
-  void sample(const std::string &s) { sample_seen++; if (samples.size() < 12) samples.push_back(s); else { uint64_t k = srng.below(sample_seen); if (k < 12 && k >= 4) samples[k] = s; } }
+  // reservoir of samples; want_sample() tells whether the next sample would be stored (so callers can avoid building it)
+  long long next_slot = -1;
+  bool want_sample() { sample_seen++; if (samples.size() < 12) { next_slot = (long long)samples.size(); return true; } uint64_t k = srng.below(sample_seen); if (k < 12 && k >= 4) { next_slot = (long long)k; return true; } next_slot = -1; return false; }
+  void put_sample(const std::string &s) { if (next_slot < 0) return; if ((size_t)next_slot >= samples.size()) samples.push_back(s); else samples[next_slot] = s; next_slot = -1; }
+  void sample(const std::string &s) { if (want_sample()) put_sample(s); }
   std::string match_known(const std::vector<std::string> &tags) const {
     for (auto &k : known) { if (k.property != prop || k.status != "open") continue; bool all = true;
       for (auto &r : k.require) if (std::find(tags.begin(), tags.end(), r) == tags.end()) { all = false; break; }
@@ -168,8 +176,8 @@ struct Ctx {
     bool first = true; for (auto &c : classes) { fprintf(out, "%s%s:%lld", first ? "" : ",", jstr(c.first).c_str(), c.second); first = false; }
     fprintf(out, "},\"samples\":["); first = true; for (auto &s : samples) { fprintf(out, "%s%s", first ? "" : ",", jstr(s).c_str()); first = false; }
     fprintf(out, "],\"partitioned\":%s,\"distinct_count\":%zu,\"distinct\":[", partitioned ? "true" : "false", distinct.size());
-    first = true; if (!partitioned) for (auto h : distinct) { fprintf(out, "%s\"%llx\"", first ? "" : ",", (unsigned long long)h); first = false; }
     fprintf(out, "]}\n"); fflush(out);
+    if (!hashfile.empty()) { FILE *hf = fopen(hashfile.c_str(), "ab"); if (hf) { std::vector<uint64_t> v(distinct.begin(), distinct.end()); if (!v.empty()) fwrite(v.data(), 8, v.size(), hf); fclose(hf); } }
   }
 };
 
@@ -191,7 +199,7 @@ static inline int fanout(const std::string &prop, const std::string &tier, uint6
       FILE *f = fopen(path.c_str(), "a"); if (!f) _exit(9);
       int dn = open("/dev/null", O_WRONLY); if (dn >= 0) { dup2(dn, 2); }
       Ctx c; c.prop = prop; c.tier = tier; c.seed = seed; c.shard = i; c.nshards = nshards; c.skip_until = w.skip; c.inflight = w.slot; c.out = f; c.known = known;
-      c.srng = Rng(seed * 1000003 + i);
+      c.srng = Rng(seed * 1000003 + i); c.hashfile = outdir + "/w" + std::to_string(i) + ".hashes";
       fn(c);
       c.finish(); fclose(f); _exit(0);
     }
@@ -217,6 +225,13 @@ static inline int fanout(const std::string &prop, const std::string &tier, uint6
       else { w.done = true; alive--; f = fopen(path.c_str(), "a"); if (f) { fprintf(f, "{\"type\":\"aborted\",\"reason\":\"worker restarts exhausted\"}\n"); fclose(f); } }
       break;
     }
+  }
+  // unite the distinct non-trivial case hashes of all workers
+  {
+    std::vector<uint64_t> all;
+    for (int i = 0; i < nshards; i++) { std::string hp = outdir + "/w" + std::to_string(i) + ".hashes"; FILE *hf = fopen(hp.c_str(), "rb"); if (!hf) continue; uint64_t buf[8192]; size_t n; while ((n = fread(buf, 8, 8192, hf)) > 0) all.insert(all.end(), buf, buf + n); fclose(hf); unlink(hp.c_str()); }
+    std::sort(all.begin(), all.end()); size_t d = std::unique(all.begin(), all.end()) - all.begin();
+    FILE *mf = fopen((outdir + "/merged.json").c_str(), "w"); if (mf) { fprintf(mf, "{\"distinct_nontrivial\":%zu,\"crashes\":%d}\n", d, crashes); fclose(mf); }
   }
   return crashes;
 }
